@@ -182,44 +182,30 @@ def subprocess_kill(d):
 
 
 def failing_records(d, name, recs, par):
-    """Bisect a rejected chunk down to the individual records Apalache rejects."""
-    bad, work, k = [], [recs], 0
-    while work:
-        nxt = []
-        jobs = []
-        for grp in work:
-            if len(grp) == 1:
-                bad.append(grp[0])
-                continue
-            h = len(grp) // 2
-            jobs += [grp[:h], grp[h:]]
-        if not jobs:
-            break
-        with ThreadPoolExecutor(max_workers=par) as ex:
-            futs = []
-            for g in jobs:
-                k += 1
-                futs.append((g, ex.submit(apalache_batch, os.path.join(d, "bisect%d" % k), "%sb%d" % (name, k), g)))
-            for g, f in futs:
-                st, _, out = f.result()
-                if st == "error":
-                    raise Inconclusive("Apalache failed while bisecting %s:\n%s" % (name, out[-2000:]))
-                if st == "violated":
-                    nxt.append(g)
-        work = nxt
-        if len(bad) > 5:
-            break
-    return bad
+    """Binary search of a rejected chunk for ONE record that Apalache rejects (a chunk of a broken build may
+    contain hundreds; one deterministic reproduction per chunk is what the report needs)."""
+    k = 0
+    while len(recs) > 1:
+        k += 1
+        h = len(recs) // 2
+        st, _, out = apalache_batch(os.path.join(d, "bisect%d" % k), "%sb%d" % (name, k), recs[:h])
+        if st == "error":
+            raise Inconclusive("Apalache failed while bisecting %s:\n%s" % (name, out[-2000:]))
+        recs = recs[:h] if st == "violated" else recs[h:]
+    st, _, out = apalache_batch(os.path.join(d, "bisect_last"), name + "one", recs)
+    if st != "violated":
+        raise Inconclusive("bisection of %s did not isolate a rejected record (%s)" % (name, st))
+    return recs
 
 
 # --------------------------------------------------------------------------- symbolic runs (Apalache)
-def apalache_sym(d, name, init, inv, timeout=600):
+def apalache_sym(d, name, cinit, init, inv, timeout=900):
     """ForwardPolicyApa with the real word widths. Returns (status, wall, out, witness-case-or-None)."""
     os.makedirs(d, exist_ok=True)
     for f in ("ForwardPolicyRules.tla", "ForwardPolicy.tla", "ForwardPolicyApa.tla"):
         shutil.copy(os.path.join(SPEC, f), d)
     od = os.path.join(d, "_apalache-out")
-    cmd = ["apalache-mc", "check", "--cinit=CInit", "--init=" + init, "--next=ApaNext", "--inv=" + inv, "--length=9",
+    cmd = ["apalache-mc", "check", "--cinit=" + cinit, "--init=" + init, "--next=ApaNext", "--inv=" + inv, "--length=9",
            "--out-dir=" + od, "ForwardPolicyApa.tla"]
     rc, out, wall = core.sh(cmd, cwd=d, timeout=timeout, outfile=os.path.join(d, name + ".out"),
                             env={"JVM_ARGS": "-Xmx3g", "JVM_GC_ARGS": "-XX:+UseSerialGC"})
@@ -243,24 +229,27 @@ def apalache_sym(d, name, init, inv, timeout=600):
     return st, wall, out, wit
 
 
-SYM_RUNS = [  # name, init, invariant, expected, what
-    ("box", "InitBox", "AgreesWhenDone", "ok",
+SYM_RUNS = [  # name, cinit, init, invariant, expected, what
+    ("box", "CInit", "InitBox", "AgreesWhenDone", "ok",
      "Apalache, real words 2^64/2^32, ANY case of the realistic box: the machine agrees with the rules (length 9 = whole machine)"),
-    ("reach", "InitBox", "NeverAccepts", "violated", "vacuity guard: an accepting forward is reachable in the box"),
-    ("witF5", "InitWitness", "F5Free", "violated", "Apalache finds an F5 witness (int64 wrap) on the 200 BTC channel"),
-    ("witF5b", "InitWitness", "F5bFree", "violated", "Apalache finds an F5b witness (uint32 wrap) with everyday margins"),
+    ("wordsF5", "CInit", "InitWords", "F5Free", "ok",
+     "Apalache, real words, ANY int32 inbound rate and amounts up to 180 BTC: no int64 wrap disagreement with the split CalcFee (881cf42)"),
+    ("reach", "CInit", "InitBox", "NeverAccepts", "violated", "vacuity guard: an accepting forward is reachable in the box"),
+    ("witF5", "CInitPreFix", "InitWitness", "F5Free", "violated",
+     "Apalache finds an F5 witness (int64 wrap) for CalcFee as it was before 881cf42, on the 200 BTC channel"),
+    ("witF5b", "CInit", "InitWitness", "F5bFree", "violated", "Apalache finds an F5b witness (uint32 wrap) with everyday margins"),
 ]
 
 
 def sym_part(ck, sdir):
     """All symbolic runs in parallel; returns Apalache-generated witness cases for the executor."""
-    with ThreadPoolExecutor(max_workers=4) as ex:
-        futs = [(r, ex.submit(apalache_sym, os.path.join(sdir, r[0]), r[0], r[1], r[2])) for r in SYM_RUNS]
+    with ThreadPoolExecutor(max_workers=5) as ex:
+        futs = [(r, ex.submit(apalache_sym, os.path.join(sdir, r[0]), r[0], r[1], r[2], r[3])) for r in SYM_RUNS]
         res = [(r, f.result()) for r, f in futs]
     wits = []
-    for (name, init, inv, expected, what), (st, wall, out, wit) in res:
+    for (name, cinit, init, inv, expected, what), (st, wall, out, wit) in res:
         core.log("  [apalache-sym] %s (%s / %s): %s, %.0fs" % (name, init, inv, st, wall))
-        ck.cov["model_runs"].append(dict(what=what, module="ForwardPolicyApa", init=init, invariant=inv,
+        ck.cov["model_runs"].append(dict(what=what, module="ForwardPolicyApa", cinit=cinit, init=init, invariant=inv,
                                          outcome=st, expected=expected, wall_s=round(wall, 1)))
         if st == "error":
             raise Inconclusive("Apalache failed on ForwardPolicyApa %s/%s:\n%s" % (init, inv, out[-3000:]))
@@ -269,7 +258,7 @@ def sym_part(ck, sdir):
                                % (init, inv, st, expected, out[-2000:]))
         if name.startswith("wit") and wit:
             c = {f: wit[f] for f in FIELDS}
-            c["tag"] = ("F5b" if name == "witF5b" else "F5") + ":apalache-witness"
+            c["tag"] = "F5b:apalache-witness" if name == "witF5b" else "F5:apalache-witness-for-pre-881cf42-code"
             wits.append(c)
     return wits
 
@@ -279,10 +268,11 @@ def mc_jobs(ck, thorough):
     """(callable, expected-violation) for every TLC model-checking run; they run side by side."""
     jobs = []
     x = ["-noGenerateSpecTE"]
-    jobs.append(lambda: ck.model_check(SPEC, "ForwardPolicyMC", "ForwardPolicyMC.cfg",
+    sfx = "_thorough" if thorough else ""
+    jobs.append(lambda: ck.model_check(SPEC, "ForwardPolicyMC", "ForwardPolicyMC%s.cfg" % sfx,
                                        "decision machine on the full boundary lattice, ideal words (fwd + transit)",
                                        name="mc_ideal", timeout=1200, workers=4, extra=x))
-    jobs.append(lambda: ck.model_check(SPEC, "ForwardPolicyMC", "ForwardPolicyMC_wrap.cfg",
+    jobs.append(lambda: ck.model_check(SPEC, "ForwardPolicyMC", "ForwardPolicyMC_wrap%s.cfg" % sfx,
                                        "decision machine, scaled machine words (2^24 / 2^12): agrees inside the scaled box",
                                        name="mc_wrap", timeout=1200, workers=4, extra=x))
 
@@ -295,15 +285,15 @@ def mc_jobs(ck, thorough):
     jobs.append(lambda: find("ForwardPolicyMC_findF5b.cfg", "F5bFree", "height + delta wrap (F5b class)"))
     consts = None if thorough else {"Bases": "{0, 13}", "Rates": "{0, 2500, 1000000}", "IBaseMags": "{0, 7}",
                                     "IRateMags": "{0, 999, 1000000}", "Heights": "{100}"}
-    jobs.append(lambda: ck.model_check(SPEC, "ForwardPolicyMC", "ForwardPolicyMC_boolform.cfg",
+    jobs.append(lambda: ck.model_check(SPEC, "ForwardPolicyMC", "ForwardPolicyMC_boolform%s.cfg" % sfx,
                                        "scalar boolean form of the judgement (Apalache) = set form (TLC), every verdict, %s lattice"
                                        % ("full" if thorough else "reduced"),
                                        name="mc_boolform", timeout=1200, workers=2, constants=consts, extra=x))
     return jobs
 
 
-def gen_lattice(ck):
-    r = ck.tlc(SPEC, "ForwardPolicyGen", "ForwardPolicyGen.cfg", name="gen_lattice", mode="mc", workers=1,
+def gen_lattice(ck, thorough):
+    r = ck.tlc(SPEC, "ForwardPolicyGen", "ForwardPolicyGen%s.cfg" % ("_thorough" if thorough else ""), name="gen_lattice", mode="mc", workers=1,
                timeout=900, extra=["-noGenerateSpecTE"])
     p = os.path.join(r.dir, "cases.ndjson")
     if r.error or r.violation or not os.path.exists(p):
@@ -337,7 +327,7 @@ def case_of(r):
 
 def lattice_chain(ck, thorough, fut_wits):
     """generate the lattice -> execute everything on the real link -> TLC validates the lattice part."""
-    lattice_path, nlat = gen_lattice(ck)
+    lattice_path, nlat = gen_lattice(ck, thorough)
     nbox = 24000 if thorough else 2500
     box = box_cases(ck.seed, nbox)
     wit = witnesses() + fut_wits.result()
@@ -424,15 +414,23 @@ def run(ck):
                                       result="accepted" if all(r[0] == "ok" for r in results) else "rejected"))
     ck.cov["apalache_cmd"] = "apalache-mc check --length=0 --inv=AllAgree B<nnn>.tla"
     okrecs = 0
+    rejected = []
     for i, (st, wall, out) in enumerate(results):
         if st == "error":
             raise Inconclusive("Apalache failed on chunk %d:\n%s" % (i, out[-3000:]))
         if st == "ok":
             okrecs += len(chunks[i])
-            continue
-        bad = failing_records(os.path.join(adir, "c%03d" % i), "B%03d" % i, chunks[i], par)
-        for r in bad:
-            report_box(ck, r, adir)
+        else:
+            rejected.append(i)
+    if rejected:
+        # one isolated reproduction for each of the first three rejected chunks, side by side
+        with ThreadPoolExecutor(max_workers=3) as ex:
+            futs = [ex.submit(failing_records, os.path.join(adir, "c%03d" % i), "B%03d" % i, chunks[i], par)
+                    for i in rejected[:3]]
+            for f in futs:
+                for r in f.result():
+                    report_box(ck, r, adir)
+        ck.cov["apalache_chunks_rejected"] = len(rejected)
     ck.cov["traces_validated_against_impl"] += okrecs
     ck.cov["distinct_nontrivial"] += len({core.sha(json.dumps(case_of(r), sort_keys=True)) for r in boxrecs})
     bh = {}
